@@ -281,6 +281,28 @@ func c20Judge(res *Result, tally *c20Tally, s *c20Script, real []pkglint.VerifC2
 			if strings.Contains(ob.Token, ":nil:") {
 				tally.add("loads_nil", 1)
 			}
+			// the most recent earlier operation on this file: a Load in the other mode?
+			if prev := c20PrevLoadOtherMode(s, real, i); prev >= 0 {
+				if s.Ops[i].Opts&4 == 0 && strings.Contains(c20GotPart(real[prev].Token), "+") {
+					tally.add("mk_then_plain_on_continuation_file", 1)
+				}
+				if s.Ops[i].Opts&4 != 0 && strings.Contains(c20FreshPart(ob.Token), "+") {
+					tally.add("plain_then_mk_on_continuation_file", 1)
+				}
+			}
+			if has("stale") && guard {
+				// evaluate the specification of the REQUESTED mode on what the implementation returned
+				got, fresh := c20GotPart(ob.Token), c20FreshPart(ob.Token)
+				if s.Ops[i].Opts&4 == 0 && got != "nil" && !c20PlainSpecHolds(got) {
+					violation("C20/load/mixed-modes/plain-load-got-joined-lines",
+						fmt.Sprintf("mode %s, capacity %d: the plain-mode Load (options %d, no Makefile bit) at step %d of [%s] returned lines that are not one logical line per physical line, numbered 1..n, Text = the physical line: %s",
+							c20ModeName[s.Mode], s.Cap, s.Ops[i].Opts, i, strings.Join(s.opStrings()[:i+1], " "), ob.Token))
+				} else if s.Ops[i].Opts&4 != 0 && got != "nil" && strings.Contains(fresh, "+") && !strings.Contains(got, "+") && c20PlainSpecHolds(got) {
+					violation("C20/load/mixed-modes/makefile-load-got-unjoined-lines",
+						fmt.Sprintf("mode %s, capacity %d: the Makefile-mode Load (options %d) at step %d of [%s] returned one line per physical line although the file has continuation lines: %s",
+							c20ModeName[s.Mode], s.Cap, s.Ops[i].Opts, i, strings.Join(s.opStrings()[:i+1], " "), ob.Token))
+				}
+			}
 			if has("stale") {
 				if guard {
 					cause := c20Cause(s, real, i)
@@ -352,8 +374,33 @@ func c20Judge(res *Result, tally *c20Tally, s *c20Script, real []pkglint.VerifC2
 			return
 		}
 		ev := events[i]
+		// C20_hit_same_options on the real cache: FileCache.hits goes up exactly when the
+		// model says the file is cached with exactly these options
+		if s.Ops[i].Kind == "L" && has("hit") != (ev&1 != 0) && !reported {
+			reported = true
+			pre := &c20Script{Mode: s.Mode, Cap: s.Cap, Files: s.Files, Keys: s.Keys, Ops: s.Ops[:i+1]}
+			which := "hit-where-the-model-misses"
+			if ev&1 != 0 {
+				which = "miss-where-the-model-hits"
+			}
+			res.AddViolation(Violation{Key: "C20/correspondence/cache-hit/" + which,
+				What: fmt.Sprintf("the Load at step %d of [%s] (mode %s, capacity %d): FileCache.hits went up: %v, the model (hit iff an entry with exactly the requested options exists): %v; the lines returned agree with the model",
+					i, strings.Join(s.opStrings()[:i+1], " "), c20ModeName[s.Mode], s.Cap, has("hit"), ev&1 != 0),
+				FoundInput: false, Size: i + 1,
+				Replay: pre.replay(map[string]any{"position": i, "real": ob.Token,
+					"broken": "correspondence FileCache.Get hit condition = Model.FileCache.get (e_opts e = o), C20_hit_same_options"})})
+			return
+		}
 		if ev&(1|2|4|16) != 0 {
 			nontrivial = true
+		}
+		if origin == "modes" {
+			if ev&1 != 0 {
+				tally.add("modes_cache_hits", 1)
+			}
+			if ev&2 != 0 {
+				tally.add("modes_miss_other_options", 1)
+			}
 		}
 		for bit, name := range map[int]string{1: "cache_hits", 2: "miss_other_options", 4: "overflow_removeOldEntries", 16: "evict_removed_entry", 32: "evict_swapped_with_last", 64: "loads_not_cached_suffix"} {
 			if ev&bit != 0 {
@@ -368,6 +415,71 @@ func c20Judge(res *Result, tally *c20Tally, s *c20Script, real []pkglint.VerifC2
 			Replay: s.replay(map[string]any{"broken": "correspondence VerifFileCacheScript = Model.FileCache.step"})})
 	}
 	res.TracesValidated++
+}
+
+// the two line lists of a Load token L<guard>:<lines returned>:<lines of a direct read>
+func c20GotPart(tok string) string {
+	f := strings.Split(tok, ":")
+	if len(f) != 3 {
+		return ""
+	}
+	return f[1]
+}
+
+func c20FreshPart(tok string) string {
+	f := strings.Split(tok, ":")
+	if len(f) != 3 {
+		return ""
+	}
+	return f[2]
+}
+
+// c20PlainSpecHolds evaluates the property's clause for plain mode on a rendered
+// list of lines: one physical line per logical line, line k numbered k, Text =
+// the physical line without its line feed, no physical line empty, a line feed
+// only at the end of one.
+func c20PlainSpecHolds(lines string) bool {
+	if lines == "e" {
+		return true
+	}
+	for k, l := range strings.Split(lines, ";") {
+		p := strings.Split(l, ",")
+		if len(p) != 4 || strings.Contains(p[2], "+") {
+			return false
+		}
+		raw := unhx(p[2])
+		if p[0] != strconv.Itoa(k+1) || raw == "" || unhx(p[1]) != strings.TrimSuffix(raw, "\n") || strings.Contains(strings.TrimSuffix(raw, "\n"), "\n") {
+			return false
+		}
+	}
+	return true
+}
+
+// c20PrevLoadOtherMode: the index of the most recent earlier operation that
+// concerns the file of the Load at position i, if that is a Load that returned
+// lines and asked for the other mode (Makefile bit differs); else -1.
+func c20PrevLoadOtherMode(s *c20Script, real []pkglint.VerifC20Obs, i int) int {
+	key := s.Ops[i].Key
+	for j := i - 1; j >= 0 && j < len(real); j-- {
+		op := s.Ops[j]
+		switch op.Kind {
+		case "L":
+			if op.Key != key {
+				continue
+			}
+			if op.Opts&4 != s.Ops[i].Opts&4 && strings.HasPrefix(real[j].Token, "L") && !strings.Contains(real[j].Token, ":nil:") {
+				return j
+			}
+			return -1
+		case "M":
+			if op.Key == key {
+				return -1
+			}
+		case "S", "X":
+			return -1
+		}
+	}
+	return -1
 }
 
 // c20RunBatch runs the scripts on the real code (sequentially: G is global) and judges them.
@@ -530,8 +642,57 @@ func c20EnumerateExt(length int, shard, nshards int, ext bool, f func(word []int
 
 var c20RandContents = []string{
 	"V= 1\nW= 2\n", "V= 1\n", "A= b\nC= d\nE= f\n", "", "# comment\n\nX= y\n", "V= 1\nW= 2", "ONE= = =\n", "V=  1\n",
+	// round 5: continuation lines (joined in Makefile mode only)
+	"A= \\\n b\nC= d\n", "V= 1 \\\n\t2 \\\n\t3\n# end\n", "X= \\\n",
 }
 var c20RandOpts = []int{4, 14, 4, 14, 0, 2, 6, 8, 12}
+
+// ---------- mixed load modes (round 5) ----------
+
+// File contents of the mixed-mode sweep: with continuation lines (Makefile mode
+// and plain mode give different lines), without, empty; index len = no such file.
+var c20ModesContents = []string{
+	"A= \\\n b\nC= d\n",
+	"VAR=\tfirst \\\n\tsecond \\\n\tthird\n# end",
+	"V= 1\nW= 2\n",
+	"",
+}
+
+// c20ModesScripts: EVERY ordered pair and triple of the 16 LoadOptions sets as
+// loads of the same file (spelling alternating), for each content and for a
+// missing file; every ordered pair also with something in between that must make
+// the second load a miss or change what it shows: the file rewritten (+ Evict), the entry
+// pushed out by another file (capacity 1), a fix through the first view saved
+// (-F).  shard = the first option set.
+func c20ModesScripts(shard int, f func(*c20Script)) {
+	o1 := shard
+	load := func(key, sp, o int) pkglint.VerifC20Op {
+		return pkglint.VerifC20Op{Kind: "L", Key: key, Spelling: sp, Opts: o}
+	}
+	for ci := 0; ci <= len(c20ModesContents); ci++ {
+		files := map[int]string{1: "B= 1\n", 5: "SUB= \\\n 5\n"}
+		if ci < len(c20ModesContents) {
+			files[0] = c20ModesContents[ci]
+		}
+		mk := func(mode string, capacity int, ops ...pkglint.VerifC20Op) {
+			f(&c20Script{Mode: mode, Cap: capacity, Files: files, Keys: []int{0, 1, 5}, Ops: ops})
+		}
+		for o2 := 0; o2 < 16; o2++ {
+			mk("d", 2, load(0, 0, o1), load(0, 1, o2))
+			for o3 := 0; o3 < 16; o3++ {
+				mk("d", 2, load(0, 0, o1), load(0, 1, o2), load(0, 0, o3))
+			}
+			for _, c := range []string{c20ModesContents[0], c20ModesContents[2]} {
+				mk("d", 2, load(0, 0, o1), pkglint.VerifC20Op{Kind: "M", Key: 0, Content: c}, load(0, 1, o2), load(0, 0, o1))
+			}
+			mk("d", 1, load(0, 0, o1), load(1, 0, 4), load(0, 1, o2), load(0, 0, o1))
+			// file 5 = sub/f0.mk: the same base name as file 0 in another directory
+			mk("d", 3, load(0, 0, o1), load(5, 0, o1), load(0, 1, o2), load(5, 1, o2))
+			mk("a", 2, load(0, 0, o1), pkglint.VerifC20Op{Kind: "X", View: 0, Line: 0, Fix: "A", RawIndex: 0, TextIndex: 2, From: " ", To: "\t"},
+				pkglint.VerifC20Op{Kind: "S", View: 0}, load(0, 1, o2), load(0, 0, o1))
+		}
+	}
+}
 
 func c20RandomScript(rng *Rng, maxLen int) *c20Script {
 	s := &c20Script{Mode: Pick(rng, []string{"d", "s", "a", "a"}), Cap: 1 + rng.Intn(4), Files: map[int]string{}}
@@ -541,6 +702,10 @@ func c20RandomScript(rng *Rng, maxLen int) *c20Script {
 		if !rng.Chance(8) {
 			s.Files[k] = Pick(rng, c20RandContents)
 		}
+	}
+	if rng.Chance(30) {
+		s.Keys = append(s.Keys, 5) // sub/f0.mk: same base name as file 0, another directory
+		s.Files[5] = Pick(rng, c20RandContents)
 	}
 	s.Keys = append(s.Keys, 8) // not cached: no .mk suffix
 	s.Files[8] = Pick(rng, c20RandContents)
@@ -662,6 +827,13 @@ func c20Worker(ctx *Ctx) *Result {
 					if len(batch) >= 20000 {
 						flush()
 					}
+				}
+			})
+		case "modes":
+			c20ModesScripts(job.Shard, func(sc *c20Script) {
+				batch = append(batch, sc)
+				if len(sample) < 3 && len(batch) == 40 {
+					sample = append(sample, sc.request())
 				}
 			})
 		case "rand":
@@ -1149,7 +1321,7 @@ func c20Audit(ctx *Ctx, res *Result, tally *c20Tally) {
 // ---------- run / replay ----------
 
 func runC20(ctx *Ctx) *Result {
-	res := &Result{Rule: "scripts over {load f o, fix through a view, save a view, modify on disk + evict}: every canonical word of length L (= all words of length <= L as prefixes) over the 12-symbol alphabet {load a/b/c.mk x 2 option sets, fix/save through the last/previous view, rewrite a.mk/b.mk}, capacity 2 and 3, modes default/-f/-F; every canonical word of length L-1 ending in a load over the 14-symbol alphabet (+ FAILING save through the last/previous view: a left-over .pkglint.tmp blocks the rewrite) that contains a failing save, mode -F; then seeded random scripts up to length 60 (5 cached files + 1 uncached, capacity 1-4, all five fix operations, removal, empty files); non-trivial = a script in which, according to the model run that matched the real run, at least one Load was served by the cache, missed because of other options, or made removeOldEntries run, or a save/modify evicted an entry (counted per script; the enumerated words are pairwise distinct, random scripts are deduplicated by their request string per worker); whole runs: 7 two/three-package scenarios x 7 sets of fixable lines x {default, -F, --show-autofix} x {explicit arguments, -r}, combined run against one fresh process per package, plus Main in process followed by a reload of every file still cached"}
+	res := &Result{Rule: "scripts over {load f o, fix through a view, save a view, modify on disk + evict}: every canonical word of length L (= all words of length <= L as prefixes) over the 12-symbol alphabet {load a/b/c.mk x 2 option sets, fix/save through the last/previous view, rewrite a.mk/b.mk}, capacity 2 and 3, modes default/-f/-F; every canonical word of length L-1 ending in a load over the 14-symbol alphabet (+ FAILING save through the last/previous view: a left-over .pkglint.tmp blocks the rewrite) that contains a failing save, mode -F; mixed load modes (exhaustive for its domain): EVERY ordered pair and triple of the 16 LoadOptions sets as loads of one *.mk file, for 4 contents (two with continuation lines, one without, empty) and a missing file, every ordered pair also with a rewrite+Evict / an overflow (capacity 1) / a saved fix (-F) in between; then seeded random scripts up to length 60 (5 cached files + 1 uncached, capacity 1-4, all five fix operations, removal, empty files); non-trivial = a script in which, according to the model run that matched the real run, at least one Load was served by the cache, missed because of other options, or made removeOldEntries run, or a save/modify evicted an entry (counted per script; the enumerated words are pairwise distinct, random scripts are deduplicated by their request string per worker); whole runs: 7 two/three-package scenarios x 7 sets of fixable lines x {default, -F, --show-autofix} x {explicit arguments, -r}, combined run against one fresh process per package, plus Main in process followed by a reload of every file still cached"}
 	tally := &c20Tally{}
 	// scratch directories of workers that were killed (timeout) are left on the tmpfs
 	if old, _ := filepath.Glob("/dev/shm/verif-c20-*"); len(old) > 0 {
@@ -1175,6 +1347,7 @@ func runC20(ctx *Ctx) *Result {
 		for _, capacity := range []int{2, 3} {
 			jobs[w] = append(jobs[w], c20Job{Kind: "exhf", Mode: "a", Cap: capacity, Len: extLen, Shard: w, NShards: nworkers})
 		}
+		jobs[w] = append(jobs[w], c20Job{Kind: "modes", Shard: w, NShards: nworkers})
 		jobs[w] = append(jobs[w], c20Job{Kind: "rand", Len: randLen, Seed: rng.Next(), Count: randCount / nworkers})
 	}
 	c20Spawn(ctx, res, tally, jobs)
@@ -1199,7 +1372,8 @@ func runC20(ctx *Ctx) *Result {
 	if len(res.Violations) == 0 {
 		for k, floor := range map[string]int{"cache_hits": 1000, "miss_other_options": 1000, "overflow_removeOldEntries": 500,
 			"evict_removed_entry": 1000, "evict_swapped_with_last": 200, "loads_not_cached_suffix": 50, "dirty_loads_outside_guard": 200,
-			"saves_that_rewrote_a_file": 500, "saves_that_failed": 500, "loads_after_failed_save_of_that_file": 300, "loads_nil": 20, "whole_runs_that_rewrote_files": 10, "whole_run_later_package_with_diagnostics": 5, "end_of_run_cached_files_reloaded": 500} {
+			"saves_that_rewrote_a_file": 500, "saves_that_failed": 500, "loads_after_failed_save_of_that_file": 300, "loads_nil": 20, "modes_cache_hits": 1500, "modes_miss_other_options": 10000,
+			"mk_then_plain_on_continuation_file": 2000, "plain_then_mk_on_continuation_file": 2000, "whole_runs_that_rewrote_files": 10, "whole_run_later_package_with_diagnostics": 5, "end_of_run_cached_files_reloaded": 500} {
 			if tally.n[k] < floor {
 				// the implementation behaves in a way that keeps the scripts from reaching the
 				// branches the property names: a broken correspondence, not a broken check
@@ -1210,7 +1384,7 @@ func runC20(ctx *Ctx) *Result {
 			}
 		}
 	}
-	res.Assumptions = []string{"file contents without backslash continuation lines (the joining is C09's model); ASCII", "no --only; a failing save is one whose temporary file cannot be created (O_EXCL); write/chmod/rename errors leave the loop through the same `continue`"}
+	res.Assumptions = []string{"the joining of continuation lines is C09's model (Model/Lines.v), used here as it is; ASCII", "no --only; a failing save is one whose temporary file cannot be created (O_EXCL); write/chmod/rename errors leave the loop through the same `continue`"}
 	return res
 }
 
